@@ -133,6 +133,9 @@ Verdict(e, pre) ==
     [] e.op = "readat"  -> ReadVerdict(e, e.off, pre) \o Sequential(e, pre)
     [] e.op = "seek"    -> SeekVerdict(e, pre) \o Sequential(e, pre)
     [] e.op = "readall" -> ReadAllVerdict(e, pre) \o Sequential(e, pre)
+    \* the process running the scenario died inside the code under test (a goroutine of the joiner or of the
+    \* pipeline panicked): nothing that was uploaded through the pipeline may make reading it back crash
+    [] e.op = "crash"   -> <<"C01:reading_back_does_not_crash", "C02:pipeline_does_not_crash", "C07:reader_does_not_crash">>
     [] OTHER            -> <<"unknown_operation">>
 
 NotesOf(e, pre) ==
@@ -150,7 +153,7 @@ Post(e, pre) ==
          ELSE [MInit EXCEPT !.kind = "scaled", !.B = e.B, !.cs = e.cs]
     [] e.op = "upload" ->
          [pre EXCEPT !.gref = IF pre.gref = "" /\ ~pre.enc /\ e.err = "" THEN e.ref ELSE @, !.pos = e.st]
-    [] e.op = "tree" -> pre
+    [] e.op \in {"tree", "crash"} -> pre
     [] OTHER -> [pre EXCEPT !.pos = e.st]
 
 TInit == l = 1 /\ m = MInit /\ bad = <<>> /\ notes = <<>>
